@@ -139,6 +139,10 @@ func (w *requestWriter) encodeHeaders(req *http.Request, addGzipHeader bool, tra
 			if !httpguts.ValidHeaderFieldValue(v) {
 				return nil, fmt.Errorf("invalid HTTP header value %q for header %q", v, k)
 			}
+			// The only TE value allowed on HTTP/3 is "trailers", see section 4.2 of RFC 9114.
+			if strings.EqualFold(k, "te") && v != "trailers" {
+				return nil, fmt.Errorf("invalid TE request header value %q", v)
+			}
 		}
 	}
 
